@@ -33,7 +33,12 @@ KINDS = ["acm", "scm", "apush", "spush", "cb"]
 KINDS_EXTRA = KINDS + ["dualcm", "dualpush"]
 BEHS = ["falsy", "truthy", "raise", "raise_if_exc"]
 # sampled in addition to the enumerated behaviours: exits that raise a BaseException which is not an Exception
-BEHS_EXTRA = BEHS + ["raise_base", "raise_base_if_exc", "reraise_same", "reraise_same"]
+BEHS_EXTRA = BEHS + ["raise_base", "raise_base_if_exc", "reraise_same", "reraise_same",
+                     # standard exception types a library may be tempted to catch for its own purposes
+                     "raise_std:StopAsyncIteration", "raise_std:RuntimeError", "raise_std:KeyError", "raise_std:AttributeError",
+                     "raise_std:TypeError", "raise_std:GeneratorExit"]
+STD = {"StopAsyncIteration": StopAsyncIteration, "RuntimeError": RuntimeError, "KeyError": KeyError,
+       "AttributeError": AttributeError, "TypeError": TypeError, "GeneratorExit": GeneratorExit}
 FALSY = [None, False, 0, ""]
 TRUTHY = [True, 1, "y"]
 N_HIST = {"quick": 30000, "thorough": 1000000}
@@ -122,6 +127,8 @@ def mk_entry(kind, beh, i, log, susp, choice):
             if ev is not None:
                 raise ev
             return None
+        if beh.startswith("raise_std:"):
+            raise STD[beh.split(":")[1]](f"s{i}")
         if beh == "raise_base":
             raise EB(f"b{i}")
         if beh == "raise_base_if_exc":
@@ -182,6 +189,8 @@ def mk_entry(kind, beh, i, log, susp, choice):
                 raise E(f"c{i}")
             if beh.startswith("raise_base"):
                 raise EB(f"cb{i}")
+            if beh.startswith("raise_std:"):
+                raise STD[beh.split(":")[1]](f"cs{i}")
             return True  # callbacks can never suppress
 
         return cb
@@ -263,6 +272,8 @@ def run_stack(case, stats):
         r1 = ("ok",)
     except (E, EB) as x:
         r1 = ("raise", x.n, x is body_exc1)
+    except tuple(STD.values()) as x:
+        r1 = ("raise", type(x).__name__, str(x))
 
     # --- ExitStack ----------------------------------------------------------------------
     CTX.reset()
@@ -293,6 +304,8 @@ def run_stack(case, stats):
         r2 = ("ok",)
     except (E, EB) as x:
         r2 = ("raise", x.n, x is body_exc2)
+    except tuple(STD.values()) as x:
+        r2 = ("raise", type(x).__name__, str(x))
     stats["stacks"] += 1
     stats[f"stack_size_{min(n, 5)}"] += 1
     if r1 == ("ok",) and body:
